@@ -64,7 +64,8 @@ def handle (req : Sexp) : Sexp :=
       let g ← getGrid g
       match judge eps g with
       | [] => some (ok [])
-      | fs => some (.list (.atom "fail" :: fs.map .str))
+      | fs => some (.list [.atom "fail", .list (fs.map .str),
+          .list ((judgeCells eps g).map fun (n, is) => .list (.str n :: is.map ofNat))])
     | .list [.atom "fixed", width, sx, .list (.atom "cols" :: cols), .list (.atom "first" :: first)] => do
       let i : FixedIn := { width := ← width.asRat?, sx := ← sx.asRat?, cols := ← cols.mapM optRat, first := ← first.mapM getFirst }
       let (w, cw) := fixedLayout i
